@@ -23,6 +23,16 @@ def scratch_dir(prefix="flodym-verif-"):
     return tempfile.mkdtemp(prefix=prefix, dir=base)
 
 
+def reused_scratch(prefix):
+    """a scratch directory with the SAME path for everything this process does under that prefix (the caller removes it after each
+    use): files of different content are written to and read from one path again and again, as in a scenario loop that regenerates
+    its input files - anything the library remembers about a PATH must not leak from one read to the next"""
+    path = os.path.join(os.environ.get("VERIF_SCRATCH") or tempfile.gettempdir(), f"{prefix}{os.getpid()}")
+    shutil.rmtree(path, ignore_errors=True)
+    os.makedirs(path)
+    return path
+
+
 def cfg_text(spec="Spec", constants=None, invariants=(), properties=(), constraints=(),
              action_constraints=(), deadlock=False, extra=""):
     lines = [f"SPECIFICATION {spec}"]
